@@ -75,13 +75,13 @@ PROPS = {
     ),
     "C07": dict(
         profiles=[("priorities", dict(quick=250, thorough=8000), {}), ("graphs", dict(quick=100, thorough=3000), {}),
-                  ("targeted", dict(quick=60, thorough=1500), {})],
+                  ("targeted", dict(quick=60, thorough=1500), {}), ("lifecycle", dict(quick=100, thorough=3000), {})],
         channels=["trace"],
         rule="an event is delivered to >= 2 handlers of different priority or after a handler removal",
         nontrivial=either(has(r"prio=h"), has(r"^rmh")),
     ),
     "C08": dict(
-        profiles=[("targeted", dict(quick=150, thorough=5000), {})],
+        profiles=[("targeted", dict(quick=150, thorough=5000), {}), ("lifecycle", dict(quick=100, thorough=3000), {})],
         channels=["trace"],
         rule="a targeted event is delivered after the target's archetype changed, or to a dead target",
         nontrivial=has(r"^t h r\d+ T0"),
@@ -94,7 +94,7 @@ PROPS = {
     ),
     "C10": dict(
         profiles=[("queries", dict(quick=80, thorough=2500), {}), ("general", dict(quick=40, thorough=800), {}),
-                  ("cascade", dict(quick=80, thorough=2000), {})],
+                  ("cascade", dict(quick=80, thorough=2000), {}), ("lifecycle", dict(quick=50, thorough=1500), {})],
         channels=["trace"],
         rule="a fetcher iterates after structural changes that happened since its handler was added",
         nontrivial=both(has(r"^t  it\d+"), count_ops(r"^(despawn|remove|insert)", 4)),
@@ -125,20 +125,21 @@ PROPS = {
     ),
     "C15": dict(
         profiles=[("cascade", dict(quick=150, thorough=4000), {}), ("graphs", dict(quick=50, thorough=1000), {}),
-                  ("priorities", dict(quick=100, thorough=3000), {})],
+                  ("priorities", dict(quick=100, thorough=3000), {}), ("lifecycle", dict(quick=80, thorough=2500), {})],
         channels=["trace", "reg", "ret"],
         rule="a handler or an event type with users is removed and events are delivered afterwards",
         nontrivial=both(has(r"^(rmh|rmev)"), has(r"^ret some")),
     ),
     "C16": dict(
-        profiles=[("cascade", dict(quick=150, thorough=4000), {})],
+        profiles=[("cascade", dict(quick=150, thorough=4000), {}), ("lifecycle", dict(quick=60, thorough=2000), {})],
         channels=["ids", "reg", "trace", "ret"],
         rule="an item is registered again after removal (index reuse) or re-registered while present",
         nontrivial=either(has(r"^ret dup"), both(has(r"^(rmc|rmev|rmh)"), has(r"^(addc|addev|addh)"))),
     ),
     "C17": dict(
         profiles=[("general", dict(quick=60, thorough=1500), dict(comps=(0, 1, 2, 3))), ("cascade", dict(quick=60, thorough=1500), {}),
-                  ("storage", dict(quick=30, thorough=500), {}), ("spawns", dict(quick=30, thorough=500), {})],
+                  ("storage", dict(quick=30, thorough=500), {}), ("spawns", dict(quick=30, thorough=500), {}),
+                  ("lifecycle", dict(quick=40, thorough=1000), {})],
         channels=["arch", "pend"], snap=True, inv=True,
         rule="history creates >= 3 archetypes and removes at least one entity, handler or component type",
         nontrivial=both(count_ops(r"^insert", 3), has(r"^(despawn|rmc|rmh|remove)")),
